@@ -46,6 +46,7 @@ Definition C_OUTSIDE : nat := 3.    (* context.OutsideException: get_iter's rela
 Definition C_TYPEERR : nat := 4.    (* TypeError raised by `reason[2] = ...` in the GeneratorExit branch of iter *)
 Definition C_MISMATCH : nat := 5.   (* Plugin.iter: inputs of one plugin ended at different chunks *)
 Definition C_STOPITER : nat := 6.   (* StopIteration leaving source.throw in divide_outputs *)
+Definition C_GENEXIT : nat := 7.    (* GeneratorExit: the caller closed the processor's iterator *)
 
 Inductive outcome : Type := OOk (rows : list Z) | OErr (e : exn).
 
@@ -183,6 +184,10 @@ Record net : Type := mkNet {
   n_kill : list nat;                      (* self.mailboxes.values() *)
   n_join : list nat;                      (* [t for m in self.mailboxes.values() for t in m._threads] *)
   n_savers : list nat;                    (* saver threads in the order of the final saver check *)
+  (* the three repairs of the exception plumbing (design_notes/C06.md, F1-F3); false = the code before the repair *)
+  n_f1 : bool;   (* iter: the GeneratorExit branch builds a new reason tuple (was: item assignment -> TypeError) *)
+  n_f2 : bool;   (* _read: the handler around `yield` re-raises MailboxKilled too (was: went on to the next message) *)
+  n_f3 : bool;   (* divide_outputs: an exception while closing the outputs kills all of them (was: escaped) *)
 }.
 
 Definition get_mb (st : nstate) (j : nat) : mbox := nth j (mbs st) dflt_mb.
@@ -294,6 +299,7 @@ Definition sink_data (t : thread) (v : Z) : thread * bool :=
       match cfault_at (t_cnt t) with
       | Some (true, _) =>                                   (* the consumer closes the iterator *)
           if relay then (set_pc t (PKillIn (EOrig C_OUTSIDE)), false)
+          else if n_f1 nt then (set_pc t (enter_killall C_GENEXIT), false)   (* _read does not catch GeneratorExit *)
           else (set_pc t (PFin (OErr (EOrig C_TYPEERR))), false)
       | Some (false, c) => (set_pc t (PKillIn (EOrig c)), false)   (* generator.throw(e) *)
       | None => (add_row t v, true)
@@ -392,7 +398,12 @@ Definition read_region (resume : bool) (st : nstate) (t : thread) : nstate :=
 
 (* an exception leaves send() *)
 Definition send_raise (t : thread) (closing : bool) (e : exn) : thread :=
-  if closing then set_pc t (PDead e)                    (* close() is outside every try block *)
+  if closing then
+    match t_kind t with
+    | KDivider _ => if n_f3 nt then set_pc t (first_out t (PKillOut 0 e))   (* kill all outputs *)
+                    else set_pc t (PDead e)
+    | _ => set_pc t (PDead e)                           (* close() is outside every try block *)
+    end
   else match t_kind t with
        | KDivider _ => set_pc t (PKillIn e)             (* source.throw(e) into _read's yield *)
        | _ => set_pc t (PKillOut 0 e)                   (* iterable.throw(e); kill_from_exception(e) *)
@@ -441,7 +452,8 @@ Definition killin_region (st : nstate) (t : thread) (e : exn) : nstate :=
   let r := cur_r t in
   let st1 := kill_mb st (r_mb r) (exn_code e) in
   let t' :=
-    if is_mk e then
+    if is_mk e && n_f2 nt then set_pc t (first_out t (PKillOut 0 e))    (* re-raised into the thrower *)
+    else if is_mk e then
       (* not re-raised: the generator goes on to its next message *)
       match r_buf r with
       | Stop :: rest => set_pc (set_cur_r t (r_set_buf r rest)) (first_out t (PKillOut 0 (EOrig C_STOPITER)))
